@@ -66,6 +66,7 @@ func runC03(c *Check) {
 		}
 	}
 	c.Floor("C03-R1", 20)
+	c.enumeratedMaps(tree["(*profileMerger).mapSample"], tree["(*profileMerger).sampleKey"])
 
 	// ---- R2 slot disjointness
 	for _, n := range []string{"(*Location).key", "(*Mapping).key", "(*Function).key", "(*profileMerger).sampleKey"} {
